@@ -258,8 +258,7 @@ sendLastSegment(CS101_FileServer self, IMasterConnection connection, int oa)
 
     DEBUG_PRINT("Send LAST SEGMENT (NoS=%i, CHS=%i)\n", self->currentSectionNumber, self->sectionChecksum);
 
-    self->fileChecksum += self->sectionChecksum;
-    self->sectionChecksum = 0;
+    /* the section checksum enters the file checksum when the section is acknowledged positively */
 
     IMasterConnection_sendASDU(connection, newAsdu);
 }
@@ -559,6 +558,8 @@ CS101_FileServer_handleAsdu(void* parameter, IMasterConnection connection,  CS10
 
                     if (self->state == WAITING_FOR_SECTION_ACK)
                     {
+                        self->fileChecksum += self->sectionChecksum;
+
                         self->currentSectionNumber++;
 
                         int nextSectionSize = self->selectedFile->getSectionSize(self->selectedFile, self->currentSectionNumber - 1);
@@ -858,9 +859,6 @@ CS101_FileServer_runTask(void* parameter, IMasterConnection connection)
                     if (sendSegment(self, connection, self->oa) == false)
                     {
                         sendLastSegment(self, connection, self->oa);
-
-                        self->fileChecksum += self->sectionChecksum;
-                        self->sectionChecksum = 0;
 
                         self->lastSendTime = Hal_getMonotonicTimeInMs();
                         self->state = WAITING_FOR_SECTION_ACK;
